@@ -898,11 +898,13 @@ impl SettlementService {
 
             let overlap_revalidation = if entry_overlap_slots.is_empty() {
                 None
-            } else if overlap_slots_are_clean(
-                &simulated,
-                &candidate_simulated,
-                &entry_overlap_slots,
-            ) {
+            } else if !overlap_has_read_only_slot(patch, &entry_overlap_slots)
+                && overlap_slots_are_clean(
+                    &simulated,
+                    &candidate_simulated,
+                    &entry_overlap_slots,
+                )
+            {
                 Some(StrandOverlapRevalidation::Clean {
                     overlapping_slots: entry_overlap_slots,
                 })
@@ -1200,6 +1202,17 @@ enum RevalidationSlotValue {
     Edge(Option<EdgeRecord>),
     Attachment(Option<AttachmentValue>),
     Port(WarpScopedPortKey),
+}
+
+/// Returns `true` when the source patch only *read* one of the overlapped
+/// slots. Comparing target state before/after the patch is vacuous for such a
+/// slot (the patch never writes it), yet the patch's writes were derived from
+/// the value the strand saw at its fork basis, which the parent has since
+/// rewritten. Such an entry cannot be revalidated as clean by state comparison.
+fn overlap_has_read_only_slot(patch: &WorldlineTickPatchV1, overlapping_slots: &[SlotId]) -> bool {
+    overlapping_slots
+        .iter()
+        .any(|slot| patch.in_slots.contains(slot) && !patch.out_slots.contains(slot))
 }
 
 fn overlap_slots_are_clean(
